@@ -117,6 +117,7 @@ func hasUnknownFuncs(dir string, overlay map[string][]byte) bool {
 }
 
 type inlSite struct {
+	kind   string // "": hoisted expansion; "literal": go/defer h(..) becomes go/defer func(..){body}(..); "tail": return h(..) of a helper with defers
 	file   *ast.File
 	path   string // file name
 	pkg    *packages.Package
@@ -251,16 +252,29 @@ func inlineRound(dir, tags string, overlay map[string][]byte, counter *int, expa
 					if h == nil {
 						return true
 					}
-					if h.why != "" || h.pkg != pkg {
+					if h.pkg != pkg || strings.Contains(h.why, "variadic") || strings.Contains(h.why, "generic") {
 						inlDebug(fset, call, callee, "helper not expandable: "+h.why)
 						return true
 					}
-					stmt := hoistable(f, call, pkg.TypesInfo)
+					kind := ""
+					var stmt ast.Stmt
+					if gs := goOrDeferOf(f, call); gs != nil {
+						// `go h(a)` / `defer h(a)` is exactly `go func(p T){ body }(a)`
+						kind, stmt = "literal", gs
+					} else if h.why == "defer" {
+						// a helper with defers can only be expanded where its return is the
+						// caller's return: `return h(a)`
+						if rs := tailReturnOf(f, call); rs != nil && tailResultsOK(h.decl, fd) {
+							kind, stmt = "tail", rs
+						}
+					} else if h.why == "" {
+						stmt = hoistable(f, call, pkg.TypesInfo)
+					}
 					if stmt == nil {
-						inlDebug(fset, call, callee, "call not hoistable")
+						inlDebug(fset, call, callee, "call cannot be expanded here (helper: "+h.why+")")
 						return true
 					}
-					s := &inlSite{file: f, path: fname, pkg: pkg, stmt: stmt, call: call, callee: callee, encl: fd}
+					s := &inlSite{kind: kind, file: f, path: fname, pkg: pkg, stmt: stmt, call: call, callee: callee, encl: fd}
 					if why := capturedAt(s, h.decl, h.pkg); why != "" {
 						inlDebug(fset, call, callee, why)
 						return true
@@ -296,7 +310,14 @@ func inlineRound(dir, tags string, overlay map[string][]byte, counter *int, expa
 		}
 		usedStmt[s.stmt] = true
 		tf := fset.File(s.stmt.Pos())
-		byFile[s.path] = append(byFile[s.path], textEdit{tf.Offset(s.stmt.Pos()), tf.Offset(s.call.End()), text})
+		from, to := s.stmt.Pos(), s.call.End()
+		switch s.kind {
+		case "literal":
+			from = s.call.Pos()
+		case "tail":
+			to = s.stmt.End()
+		}
+		byFile[s.path] = append(byFile[s.path], textEdit{tf.Offset(from), tf.Offset(to), text})
 		p := fset.Position(s.call.Pos())
 		notes = append(notes, fmt.Sprintf("expanded %s in %s at %s:%d", s.callee.FullName(), enclName(s), filepath.Base(p.Filename), p.Line))
 	}
@@ -398,13 +419,10 @@ func notExpandable(fd *ast.FuncDecl, obj *types.Func) string {
 	if sig.TypeParams() != nil || sig.RecvTypeParams() != nil {
 		return "generic"
 	}
-	why := ""
+	reasons := map[string]bool{}
 	var walk func(n ast.Node, inLit bool)
 	walk = func(n ast.Node, inLit bool) {
 		ast.Inspect(n, func(m ast.Node) bool {
-			if why != "" {
-				return false
-			}
 			switch m := m.(type) {
 			case *ast.FuncLit:
 				if m != n {
@@ -413,26 +431,31 @@ func notExpandable(fd *ast.FuncDecl, obj *types.Func) string {
 				}
 			case *ast.DeferStmt:
 				if !inLit {
-					why = "defer"
+					reasons["defer"] = true
 				}
 			case *ast.LabeledStmt:
 				if !inLit {
-					why = "label"
+					reasons["label"] = true
 				}
 			case *ast.BranchStmt:
 				if m.Tok == token.GOTO && !inLit {
-					why = "goto"
+					reasons["goto"] = true
 				}
 			case *ast.CallExpr:
 				if id, ok := m.Fun.(*ast.Ident); ok && id.Name == "recover" {
-					why = "recover"
+					reasons["recover"] = true
 				}
 			}
 			return true
 		})
 	}
 	walk(fd.Body, false)
-	return why
+	var rs []string
+	for r := range reasons {
+		rs = append(rs, r)
+	}
+	sort.Strings(rs)
+	return strings.Join(rs, ",")
 }
 
 // hoistable returns the statement in front of which the call's expansion may
@@ -643,6 +666,9 @@ func identOf(e ast.Expr) *ast.Ident {
 
 // expand produces the replacement for the source text [stmt.Pos(), call.End()).
 func expand(fset *token.FileSet, s *inlSite, hd *ast.FuncDecl, hfile *ast.File, overlay map[string][]byte, n int) (string, string) {
+	if s.kind != "" {
+		return expandWhole(fset, s, hd, hfile, overlay)
+	}
 	info := s.pkg.TypesInfo
 	sig := s.callee.Type().(*types.Signature)
 	csrc := fileBytes(s.path, overlay)
@@ -934,4 +960,313 @@ func paramNames(fd *ast.FuncDecl) []string {
 		}
 	}
 	return out
+}
+
+// goOrDeferOf: call is the call of a go or defer statement.
+func goOrDeferOf(f *ast.File, call *ast.CallExpr) ast.Stmt {
+	path, _ := astutil.PathEnclosingInterval(f, call.Pos(), call.End())
+	if len(path) < 2 || path[0] != ast.Node(call) {
+		return nil
+	}
+	switch p := path[1].(type) {
+	case *ast.GoStmt:
+		if p.Call == call {
+			return p
+		}
+	case *ast.DeferStmt:
+		if p.Call == call {
+			return p
+		}
+	}
+	return nil
+}
+
+// tailReturnOf: call is the only operand of a return statement.
+func tailReturnOf(f *ast.File, call *ast.CallExpr) ast.Stmt {
+	path, _ := astutil.PathEnclosingInterval(f, call.Pos(), call.End())
+	if len(path) < 2 || path[0] != ast.Node(call) {
+		return nil
+	}
+	if rs, ok := path[1].(*ast.ReturnStmt); ok && len(rs.Results) == 1 && rs.Results[0] == ast.Expr(call) {
+		// not inside a function literal of the enclosing declaration: its
+		// return would leave the literal, which is what we want as well, but
+		// the result-name test below is made against the declaration
+		for _, n := range path[2:] {
+			if _, isLit := n.(*ast.FuncLit); isLit {
+				return nil
+			}
+		}
+		return rs
+	}
+	return nil
+}
+
+// tailResultsOK: the helper's results are unnamed, or named exactly like the
+// caller's (so that its deferred functions and bare returns act on the
+// caller's result variables).
+func tailResultsOK(hd, caller *ast.FuncDecl) bool {
+	names := func(fd *ast.FuncDecl) ([]string, bool) {
+		var out []string
+		named := false
+		if fd.Type.Results == nil {
+			return nil, false
+		}
+		for _, f := range fd.Type.Results.List {
+			if len(f.Names) == 0 {
+				out = append(out, "")
+			}
+			for _, n := range f.Names {
+				out = append(out, n.Name)
+				named = true
+			}
+		}
+		return out, named
+	}
+	hn, hNamed := names(hd)
+	if !hNamed {
+		return true
+	}
+	cn, cNamed := names(caller)
+	if !cNamed || len(hn) != len(cn) {
+		return false
+	}
+	for i := range hn {
+		if hn[i] != cn[i] || hn[i] == "_" || hn[i] == "" {
+			return false
+		}
+	}
+	// no parameter of the helper may be named like one of those results
+	for _, p := range paramNames(hd) {
+		for _, r := range hn {
+			if p == r {
+				return false
+			}
+		}
+	}
+	return true
+}
+
+// expandWhole produces the text for the "literal" and "tail" forms.
+func expandWhole(fset *token.FileSet, s *inlSite, hd *ast.FuncDecl, hfile *ast.File, overlay map[string][]byte) (string, string) {
+	info := s.pkg.TypesInfo
+	sig := s.callee.Type().(*types.Signature)
+	csrc := fileBytes(s.path, overlay)
+	hpath := fset.Position(hfile.Package).Filename
+	hsrc := fileBytes(hpath, overlay)
+	ctf := fset.File(s.stmt.Pos())
+	htf := fset.File(hd.Pos())
+	text := func(e ast.Expr) string { return string(csrc[ctf.Offset(e.Pos()):ctf.Offset(e.End())]) }
+	lineDir := func(p token.Pos) string {
+		pos := fset.Position(p)
+		return fmt.Sprintf("/*line %s:%d:%d*/", pos.Filename, pos.Line, pos.Column)
+	}
+	// types, spelled at the call site
+	imports := map[string]string{}
+	for _, im := range s.file.Imports {
+		pn, _ := info.Implicits[im].(*types.PkgName)
+		if im.Name != nil {
+			pn, _ = info.Defs[im.Name].(*types.PkgName)
+		}
+		if pn != nil && pn.Name() != "_" && pn.Name() != "." {
+			imports[pn.Imported().Path()] = pn.Name()
+		}
+	}
+	scope := s.pkg.Types.Scope().Innermost(s.stmt.Pos())
+	fail := ""
+	qual := func(p *types.Package) string {
+		if p == s.pkg.Types {
+			return ""
+		}
+		if name, ok := imports[p.Path()]; ok {
+			if _, at := scope.LookupParent(name, s.stmt.Pos()); at != nil {
+				if pn, ok := at.(*types.PkgName); ok && pn.Imported() == p {
+					return name
+				}
+			}
+		}
+		fail = "type from a package the caller's file cannot name: " + p.Path()
+		return p.Name()
+	}
+	typeStr := func(t types.Type) string {
+		var chk func(t types.Type, d int)
+		chk = func(t types.Type, d int) {
+			if d > 6 || t == nil {
+				return
+			}
+			switch u := t.(type) {
+			case *types.Named:
+				if u.Obj().Pkg() == s.pkg.Types || u.Obj().Pkg() == nil {
+					if _, at := scope.LookupParent(u.Obj().Name(), s.stmt.Pos()); at != u.Obj() {
+						fail = "type name " + u.Obj().Name() + " is shadowed at the call"
+					}
+				}
+			case *types.Basic:
+				if _, at := scope.LookupParent(u.Name(), s.stmt.Pos()); at != nil && at.Parent() != types.Universe {
+					fail = "type name " + u.Name() + " is shadowed at the call"
+				}
+			case *types.Pointer:
+				chk(u.Elem(), d+1)
+			case *types.Slice:
+				chk(u.Elem(), d+1)
+			case *types.Array:
+				chk(u.Elem(), d+1)
+			case *types.Map:
+				chk(u.Key(), d+1)
+				chk(u.Elem(), d+1)
+			case *types.Chan:
+				chk(u.Elem(), d+1)
+			case *types.Signature:
+				for i := 0; i < u.Params().Len(); i++ {
+					chk(u.Params().At(i).Type(), d+1)
+				}
+				for i := 0; i < u.Results().Len(); i++ {
+					chk(u.Results().At(i).Type(), d+1)
+				}
+			}
+		}
+		chk(t, 0)
+		return types.TypeString(t, qual)
+	}
+	// receiver and arguments
+	type bindT struct {
+		name, arg string
+		typ       func() string // spelled only where needed: a shadowed type name makes it unspellable
+		conv      bool
+	}
+	var binds []bindT
+	if recv := sig.Recv(); recv != nil {
+		sel, ok := ast.Unparen(s.call.Fun).(*ast.SelectorExpr)
+		if !ok {
+			return "", "method call without selector"
+		}
+		selInfo := info.Selections[sel]
+		if selInfo == nil || selInfo.Kind() != types.MethodVal || len(selInfo.Index()) != 1 {
+			return "", "promoted or indirect method"
+		}
+		rname := "_"
+		if hd.Recv != nil && len(hd.Recv.List) == 1 && len(hd.Recv.List[0].Names) == 1 {
+			rname = hd.Recv.List[0].Names[0].Name
+		}
+		at := info.Types[sel.X].Type
+		_, argPtr := at.Underlying().(*types.Pointer)
+		_, recvPtr := recv.Type().Underlying().(*types.Pointer)
+		rt := text(sel.X)
+		switch {
+		case recvPtr && !argPtr:
+			rt = "&(" + rt + ")"
+		case !recvPtr && argPtr:
+			rt = "*(" + rt + ")"
+		}
+		rty := recv.Type()
+		binds = append(binds, bindT{rname, rt, func() string { return typeStr(rty) }, false})
+	}
+	if len(s.call.Args) != sig.Params().Len() {
+		return "", "argument count (tuple forwarding)"
+	}
+	pn := paramNames(hd)
+	if len(pn) != sig.Params().Len() {
+		return "", "parameter names"
+	}
+	for i, a := range s.call.Args {
+		tv := info.Types[a]
+		conv := !(tv.Value == nil && !tv.IsNil() && tv.Type != nil && types.Identical(tv.Type, sig.Params().At(i).Type()))
+		pty := sig.Params().At(i).Type()
+		binds = append(binds, bindT{pn[i], text(a), func() string { return typeStr(pty) }, conv})
+	}
+	// results as declared by the helper
+	var resDecl []string
+	var resNames []string
+	if hd.Type.Results != nil && s.kind == "tail" {
+		for _, f := range hd.Type.Results.List {
+			if len(f.Names) == 0 {
+				resNames = append(resNames, "")
+			}
+			for _, nm := range f.Names {
+				resNames = append(resNames, nm.Name)
+			}
+		}
+	}
+	if hd.Type.Results != nil && s.kind == "literal" {
+		k := 0
+		for _, f := range hd.Type.Results.List {
+			if len(f.Names) == 0 {
+				resDecl = append(resDecl, typeStr(sig.Results().At(k).Type()))
+				resNames = append(resNames, "")
+				k++
+			}
+			for _, nm := range f.Names {
+				resDecl = append(resDecl, nm.Name+" "+typeStr(sig.Results().At(k).Type()))
+				resNames = append(resNames, nm.Name)
+				k++
+			}
+		}
+	}
+	if fail != "" {
+		return "", fail
+	}
+	body := string(hsrc[htf.Offset(hd.Body.Lbrace)+1 : htf.Offset(hd.Body.Rbrace)])
+	var b strings.Builder
+	switch s.kind {
+	case "literal":
+		b.WriteString("func(")
+		for i, x := range binds {
+			if i > 0 {
+				b.WriteString(", ")
+			}
+			b.WriteString(x.name + " " + x.typ())
+		}
+		b.WriteString(")")
+		if len(resDecl) > 0 {
+			b.WriteString(" (" + strings.Join(resDecl, ", ") + ")")
+		}
+		b.WriteString(" {" + lineDir(hd.Body.Lbrace+1) + body + "\n}" + lineDir(s.call.Lparen) + "(")
+		for i, x := range binds {
+			if i > 0 {
+				b.WriteString(", ")
+			}
+			b.WriteString(x.arg)
+		}
+		b.WriteString(")" + lineDir(s.call.End()))
+	case "tail":
+		b.WriteString("{ ")
+		var lhs, rhs, uses []string
+		for _, x := range binds {
+			name := x.name
+			if name == "" {
+				name = "_"
+			}
+			lhs = append(lhs, name)
+			if name != "_" {
+				uses = append(uses, name)
+			}
+			if x.conv {
+				rhs = append(rhs, "("+x.typ()+")("+x.arg+")")
+			} else {
+				rhs = append(rhs, x.arg)
+			}
+		}
+		if len(lhs) > 0 {
+			op := "="
+			for _, l := range lhs {
+				if l != "_" {
+					op = ":="
+				}
+			}
+			fmt.Fprintf(&b, "%s %s %s; ", strings.Join(lhs, ", "), op, strings.Join(rhs, ", "))
+			for _, u := range uses {
+				fmt.Fprintf(&b, "_ = %s; ", u)
+			}
+		}
+		// the helper's named results start at their zero values
+		for i, nm := range resNames {
+			if nm != "" {
+				fmt.Fprintf(&b, "%s = *new(%s); ", nm, typeStr(sig.Results().At(i).Type()))
+			}
+		}
+		if fail != "" {
+			return "", fail
+		}
+		b.WriteString(lineDir(hd.Body.Lbrace+1) + body + "\n}" + lineDir(s.stmt.End()))
+	}
+	return b.String(), ""
 }
